@@ -33,12 +33,25 @@ VIA = C.Kind("via-running-bridge", impl=_impl_bridge, model=lambda a: "dgram " +
              judge=lambda a, o: [(f"c05exp {a['family']} {a['fields']}", o)],
              classify=lambda a, o: "udp:" + a["fields"].split()[0], nontrivial=lambda a, o: (a["fields"].split()[0], o[:60]))
 
+def _impl_thrice(a):
+    """the same broadcast three times in a row through one running bridge: three deliveries, each the device described"""
+    out = BH.run_bridge_sequence(1, [(0, a["dgram"])] * 3, burst=True)      # one after the other, nothing in between
+    got = [] if out == "-" else out.split(" | ")
+    if len(got) != 3 or len(set(got)) != 1:
+        return f"{len(got)}-deliveries-for-3-identical-broadcasts"
+    return "device " + got[0][2:]
+
+
+THRICE = C.Kind("same-broadcast-three-times", impl=_impl_thrice, model=lambda a: "dgram " + a["dgram"],
+                judge=lambda a, o: [(f"c05exp {a['family']} {a['fields']}", o)],
+                classify=lambda a, o: "x3:" + a["fields"].split()[0], nontrivial=lambda a, o: (a["fields"].split()[0], o[:60]))
+
 RAW = C.Kind("shipped-capture", impl=lambda a: BH.parse_direct(a["dgram"]), model=lambda a: "dgram " + a["dgram"],
              classify=lambda a, o: "capture:" + o.split()[0], nontrivial=lambda a, o: a["name"])
 ENC_BUF = C.Kind("encoded-broadcast-in-a-reused-buffer", impl=lambda a: BH.parse_direct(a["dgram"], "buffer"), model=lambda a: "dgram " + a["dgram"],
                  judge=lambda a, o: [(f"c05exp {a['family']} {a['fields']}", o)],
                  classify=lambda a, o: "buf:" + a["fields"].split()[0], nontrivial=lambda a, o: (a["fields"].split()[0], o[:90]))
-KINDS = {"encoded-broadcast-in-a-reused-buffer": ENC_BUF, "encoded-broadcast": ENC, "via-running-bridge": VIA, "shipped-capture": RAW}
+KINDS = {"same-broadcast-three-times": THRICE, "encoded-broadcast-in-a-reused-buffer": ENC_BUF, "encoded-broadcast": ENC, "via-running-bridge": VIA, "shipped-capture": RAW}
 
 
 def captures():
@@ -77,6 +90,8 @@ def streams(ctx):
     ctx.run_cases(ENC_BUF, "broadcasts-in-one-reused-receive-buffer", items, exhaustive=False, sample_every=149)
     items = B.encode_all([B.gen_device(rng) for _ in range(ctx.n(40, 400))])
     ctx.run_cases(VIA, "through-a-running-bridge-on-loopback", items, exhaustive=False, sample_every=20)
+    items = B.encode_all([B.gen_device(rng) for _ in range(ctx.n(15, 200))])
+    ctx.run_cases(THRICE, "the-same-broadcast-three-times-in-a-row", items, exhaustive=False, sample_every=7)
     # a broadcast says the same on a host in any zone (remaining time and auto shutdown are durations, not clock times)
     import apiharness as H
     try:
